@@ -172,6 +172,10 @@ func validateInputTypeCompatibility(
 	if handler.Kind() != reflect.Func {
 		return fmt.Errorf("handler must be a function, %s given", handler.Kind())
 	}
+	if handler.IsNil() {
+		// A nil function value has the right type, but calling it panics.
+		return fmt.Errorf("handler must not be a nil function")
+	}
 	if handler.Type().IsVariadic() {
 		// Call passes each argument as one parameter; a variadic handler would need CallSlice.
 		return fmt.Errorf("handler must not be variadic, %s given", handler.Type())
@@ -193,6 +197,14 @@ func validateInputTypeCompatibility(
 		}
 	}
 	return nil
+}
+
+// callRecovered calls the handler and reports a panic of the handler instead of letting it escape.
+func callRecovered(handler reflect.Value, args []reflect.Value) (result []reflect.Value, panicked any) {
+	defer func() {
+		panicked = recover()
+	}()
+	return handler.Call(args), nil
 }
 
 type FunctionSchema struct {
@@ -349,7 +361,12 @@ func (f CallableFunctionSchema) Call(arguments []any) (any, error) {
 			), false)
 		}
 	}
-	result := f.Handler.Call(args)
+	result, panicked := callRecovered(f.Handler, args)
+	if panicked != nil {
+		// As documented for IsFunctionReportedError: a panic of the function is an error of the function.
+		return nil, NewFunctionCallError(
+			fmt.Errorf("function with ID '%s' panicked: %v", f.ID(), panicked), true)
+	}
 	gotReturns := len(result)
 	expectedReturnVals := 0
 	if f.StaticOutputValue != nil || f.DynamicTypeHandler != nil {
